@@ -259,6 +259,10 @@ func parseCryptoFunction(raw, crypto string) (SuiteConfig, error) {
 		return SuiteConfig{}, fmt.Errorf("unsupported hash %q", hashPart)
 	}
 
+	// plain decimal digits only: Atoi would also take a sign ("+6")
+	if digPart == "" || strings.Trim(digPart, "0123456789") != "" {
+		return SuiteConfig{}, fmt.Errorf("invalid code length %q in %q", digPart, raw)
+	}
 	dig, err := strconv.Atoi(digPart)
 	if err != nil {
 		return SuiteConfig{}, fmt.Errorf("invalid digit spec %q", digPart)
@@ -347,6 +351,9 @@ func parseTimeGranularity(g string) (int, error) {
 	}
 	numStr := g[:len(g)-1]
 	unit := g[len(g)-1]
+	if strings.Trim(numStr, "0123456789") != "" {
+		return 0, fmt.Errorf("invalid number %q", numStr)
+	}
 	val, err := strconv.Atoi(numStr)
 	if err != nil {
 		return 0, err
